@@ -1,6 +1,230 @@
-/- C03 property theorems. -/
-import BV.C03.Lemmas
+/-
+C03 property theorems: the UTXO set the node reports, the spend journal and the persisted
+bucket equal the fold of the active chain, for every well-formed history and every flush
+placement. Only statements + non-vacuity examples live here; proofs are in
+Lemmas/Chain/Undo/ViewLemmas/Detach/Run.lean.
+
+Vocabulary: `Spec.utxoOf chain` is the fold (chain = blocks above genesis, genesis side first);
+`abs cache db` is what `FetchUtxoEntry` callers see (cache entry, nil marker, or database row);
+`Lemmas.HistOk c ops` says the history `ops` is well formed from chain `c`: it connects only
+blocks valid on the current fold (inputs exist; no created outpoint is currently unspent - the
+BIP30 rule) with an id not already active, and detaches no more than the chain holds. Flushes
+(`Op.flush mode full due`, `full`/`due` = the memory-threshold and timer comparisons, arbitrary)
+and fetches may occur anywhere; every connect also carries an arbitrary `full` bit for the
+FlushIfNeeded that ends `connectBlock`.
+-/
+import BV.C03.Run
+import BV.Generated.C03
 namespace BV.C03
-open Spec
+open Spec Lemmas
+
+/-! ### the invariant -/
+
+/-- The initial state (empty cache, empty bucket, genesis only) satisfies the invariant
+`abs = fold(activeChain)` ∧ fresh ⇒ no row ∧ nil marker ⇒ no row ∧ unmodified ⇒ row = entry
+∧ journal exact for every active block. -/
+theorem inv_init : Inv init := Lemmas.inv_init
+
+/-- Every operation of a well-formed history succeeds (no AssertError), preserves the
+invariant and moves the active chain as expected: connect (with or without the validation
+fetches, BIP30 scan or not), multi-block detach through one shared UtxoViewpoint, flush in any
+mode with any threshold/timer outcome, fetch. -/
+theorem step_preserves (s : State) (op : Op) (h : Inv s) (hok : OpOk s.chainRev op) :
+    ∃ s', step s op = some s' ∧ Inv s' ∧ s'.chainRev = chainStep s.chainRev op :=
+  step_inv s op h hok
+
+/-- `reported_eq_fold`: after ANY well-formed history from genesis the run succeeds and, for
+ALL outpoints, what the node reports (through the cache, a nil marker or the database, and
+as the result of an actual `FetchUtxoEntry`) is the fold of the active chain; the active chain
+is the one the history describes. -/
+theorem reported_eq_fold (ops : List Op) (hok : HistOk [] ops) :
+    ∃ s, run init ops = some s ∧ s.chainRev = ops.foldl chainStep [] ∧
+      (∀ o, abs s.cache s.db o = utxoOf s.chainRev.reverse o) ∧
+      (∀ o, rval (fetch s.cache s.db o).2 = utxoOf s.chainRev.reverse o) := by
+  obtain ⟨s, hr, hi, hc⟩ := run_inv ops init Lemmas.inv_init hok
+  refine ⟨s, hr, hc, fun o => ?_, fun o => ?_⟩
+  · rw [utxoOf_reverse, hi.abs_eq]
+  · rw [utxoOf_reverse]; exact fetch_result s o hi
+
+/-- The same from any state satisfying the invariant (e.g. mid-history). -/
+theorem reported_eq_fold_from (s : State) (ops : List Op) (h : Inv s) (hok : HistOk s.chainRev ops) :
+    ∃ s', run s ops = some s' ∧ Inv s' ∧ s'.chainRev = ops.foldl chainStep s.chainRev ∧
+      ∀ o, abs s'.cache s'.db o = utxoOf s'.chainRev.reverse o := by
+  obtain ⟨s', hr, hi, hc⟩ := run_inv ops s h hok
+  exact ⟨s', hr, hi, hc, fun o => by rw [utxoOf_reverse, hi.abs_eq]⟩
+
+/-! ### disconnect restores the state before the connect -/
+
+/-- Spec level: undoing a valid block with its own journal gives back exactly the set it was
+applied to. -/
+theorem undo_apply_id (u : UtxoSet) (h : Nat) (b : Block) (hv : validBlock u h b) :
+    undoBlock b (journalOf u h b) (applyBlock u h b) = some u :=
+  undoBlock_applyBlock u h b hv
+
+/-- `disconnect_connect_id`: connecting a valid block and then disconnecting it (through the
+view path, with the flush to the parent marker) succeeds and restores precisely the reported
+set and the active chain; the bucket then holds that set by itself and the cache is empty. -/
+theorem disconnect_connect_id (s : State) (b : Block) (validate bip30 full : Bool) (h : Inv s)
+    (hv : validBlock (utxoRev s.chainRev) (s.chainRev.length + 1) b)
+    (hid : b.id ∉ s.chainRev.map (·.id)) :
+    ∃ s1 s2, connect s b validate bip30 full = some s1 ∧ step s1 (.detach 1) = some s2 ∧
+      s2.chainRev = s.chainRev ∧ abs s2.cache s2.db = abs s.cache s.db ∧ Inv s2 := by
+  obtain ⟨s1, h1, hi1, hc1⟩ := connect_inv s b validate bip30 full h hv hid
+  obtain ⟨s2, h2, hi2, hc2⟩ := step_inv s1 (.detach 1) hi1 (by simp [OpOk, hc1])
+  refine ⟨s1, s2, h1, h2, ?_, ?_, hi2⟩
+  · rw [hc2, hc1]; rfl
+  · rw [hi2.abs_eq, h.abs_eq, hc2, hc1]; rfl
+
+/-- Detaching `n ≤ length` blocks with one shared view rewinds the fold by exactly those blocks. -/
+theorem detach_rewinds (s : State) (n : Nat) (h : Inv s) (hn : n ≤ s.chainRev.length) :
+    ∃ s', step s (.detach n) = some s' ∧ Inv s' ∧ s'.chainRev = s.chainRev.drop n ∧
+      ∀ o, abs s'.cache s'.db o = utxoOf (s.chainRev.drop n).reverse o := by
+  obtain ⟨s', h1, hi, hc⟩ := step_inv s (.detach n) h hn
+  exact ⟨s', h1, hi, hc, fun o => by rw [utxoOf_reverse, hi.abs_eq, hc]; rfl⟩
+
+/-! ### flushes -/
+
+/-- `flush_preserves`: a flush in any mode, whether or not the threshold/timer lets it happen,
+changes nothing an observer can see, and keeps the invariant. -/
+theorem flush_preserves (s : State) (mode : Mode) (full due : Bool) (h : Inv s) :
+    Inv (flush s mode full due) ∧ (flush s mode full due).chainRev = s.chainRev ∧
+    abs (flush s mode full due).cache (flush s mode full due).db = abs s.cache s.db := by
+  have := flushAt_inv s (tipId s.chainRev) mode full due h
+  refine ⟨this.1, this.2.1, ?_⟩
+  have h2 := this.1.abs_eq
+  unfold flush
+  rw [h2, this.2.1, h.abs_eq]
+
+/-- `persisted_eq_view_after_flush`: after a required flush the persisted bucket alone equals
+the in-memory view before the flush (= the fold), the cache is empty and the persisted
+consistency marker names the tip. -/
+theorem persisted_eq_view_after_flush (s : State) (full due : Bool) (h : Inv s) :
+    (flush s .required full due).db = abs s.cache s.db ∧
+    (flush s .required full due).db = utxoOf s.chainRev.reverse ∧
+    (flush s .required full due).cache = emptyCache ∧
+    (flush s .required full due).marker = tipId s.chainRev := by
+  have := flushAt_required s (tipId s.chainRev) full due h
+  refine ⟨?_, ?_, this.2.1, this.2.2⟩
+  · unfold flush; rw [this.1, h.abs_eq]
+  · unfold flush; rw [this.1, utxoOf_reverse]
+
+/-- What a flush writes is the abstraction map itself, for any cache satisfying the cache
+invariant (whatever the chain). -/
+theorem writeCache_eq_view (c : Cache) (db : Db) (h : CInv c db) : writeCache c db = abs c db :=
+  writeCache_eq_abs c db h
+
+/-! ### the spend journal -/
+
+/-- `journal_exact`: in every state satisfying the invariant (hence after every well-formed
+history) the journal bucket holds, for every active block, exactly the entries that block
+spent, in spend order, as defined by the Spec on the chain below it. -/
+theorem journal_exact (s : State) (h : Inv s) (pre : List Block) (b : Block) (post : List Block)
+    (hc : s.chainRev.reverse = pre ++ b :: post) :
+    s.journal b.id = some (journalOf (utxoOf pre) (pre.length + 1) b) := by
+  have hrev : s.chainRev = post.reverse ++ b :: pre.reverse := by
+    have := congrArg List.reverse hc
+    simpa using this
+  have hj := h.journal
+  rw [hrev] at hj
+  have := journalOk_mid _ _ _ _ hj
+  rw [this, ← utxoOf_reverse]
+  simp
+
+/-- A connect stores exactly the Spec journal of the new block. -/
+theorem journal_of_connect (s : State) (b : Block) (validate bip30 full : Bool) (h : Inv s)
+    (hv : validBlock (utxoRev s.chainRev) (s.chainRev.length + 1) b)
+    (hid : b.id ∉ s.chainRev.map (·.id)) :
+    ∃ s', connect s b validate bip30 full = some s' ∧
+      s'.journal b.id = some (journalOf (utxoOf s.chainRev.reverse) (s.chainRev.length + 1) b) := by
+  obtain ⟨s', h1, hi, hc⟩ := connect_inv s b validate bip30 full h hv hid
+  refine ⟨s', h1, ?_⟩
+  have hj := hi.journal
+  rw [hc] at hj
+  rw [hj.1, utxoOf_reverse]
+
+/-- Total transaction count of a chain grows by the block's transaction count. -/
+theorem totalTxns_connect (chain : List Block) (b : Block) :
+    totalTxns (chain ++ [b]) = totalTxns chain + (1 + b.txs.length) := by
+  simp [totalTxns]; omega
+
+/-! ### cache primitives (what the chain-level theorems rest on) -/
+
+/-- `fetch` keeps the invariant and the view, caches its answer, and answers with the view. -/
+theorem fetch_correct (c : Cache) (db : Db) (o : OutPoint) (h : CInv c db) :
+    CInv (fetch c db o).1 db ∧ (∀ p, abs (fetch c db o).1 db p = abs c db p) ∧
+    (fetch c db o).1.get o = some (fetch c db o).2 ∧ rval (fetch c db o).2 = abs c db o :=
+  fetch_spec c db o h
+
+/-- The fixed `addTxOut`. The extra hypothesis the proof needs is exactly the "no cache entry
+at all" case: then the database must not hold the outpoint (which BIP30 - the outpoint is not
+currently unspent - provides, see `addTxOut_correct_bip30`). With any cache entry present (nil,
+fresh, spent-unflushed, even a clean unspent one) no hypothesis is needed. -/
+theorem addTxOut_correct (c : Cache) (db : Db) (id i : Nat) (out : Out) (cb : Bool) (ht : Nat)
+    (h : CInv c db) (hnew : c.get (id, i) = none → db (id, i) = none) :
+    CInv (addTxOut c (id, i) out cb ht) db ∧
+    ∀ p, abs (addTxOut c (id, i) out cb ht) db p = addOut id ht cb i out (abs c db) p :=
+  addTxOut_spec c db id i out cb ht h hnew
+
+theorem addTxOut_correct_bip30 (c : Cache) (db : Db) (id i : Nat) (out : Out) (cb : Bool) (ht : Nat)
+    (h : CInv c db) (hnew : abs c db (id, i) = none) :
+    CInv (addTxOut c (id, i) out cb ht) db ∧
+    ∀ p, abs (addTxOut c (id, i) out cb ht) db p = addOut id ht cb i out (abs c db) p :=
+  addTxOut_spec c db id i out cb ht h (fun hc => abs_none_db hnew hc)
+
+/-- `addTxIn` on an existing output: succeeds, returns the spent entry as stxo, keeps the
+invariant, and the view loses exactly that outpoint. -/
+theorem addTxIn_correct (c : Cache) (db : Db) (o : OutPoint) (e : Entry) (h : CInv c db)
+    (hex : abs c db o = some e) :
+    ∃ c', addTxIn c db o = some (c', e) ∧ CInv c' db ∧ ∀ p, abs c' db p = spend (abs c db) o p :=
+  addTxIn_spec c db o e h hex
+
+/-! ### F-C03-a: the rule before the fix breaks the invariant -/
+
+def fc03aEntry : Entry := ⟨50, [0x51], 1, true⟩
+def fc03aDb : Db := fun p => if p = (1, 0) then some fc03aEntry else none
+/-- (1,0) was loaded from the database and spent, not yet flushed. -/
+def fc03aCache : Cache := setSlot emptyCache (1, 0) (some (some ⟨fc03aEntry, true, true, false⟩))
+
+/-- With the pre-fix rule (always fresh), re-creating the outpoint over a cached
+spent-but-unflushed entry and spending it again leaves the stale database row visible:
+the state satisfies the cache invariant and BIP30 (the outpoint is absent), yet after
+`addTxOutOld; addTxIn` the node reports the old entry (height 1) although the Spec says the
+outpoint is spent. The fixed rule reports it spent. -/
+theorem fc03a_old_rule_breaks :
+    CInv fc03aCache fc03aDb ∧ abs fc03aCache fc03aDb (1, 0) = none ∧
+    (match addTxIn (addTxOutOld fc03aCache (1, 0) ⟨50, [0x51]⟩ true 3) fc03aDb (1, 0) with
+      | some (c', _) => abs c' fc03aDb (1, 0)
+      | none => none) = some fc03aEntry ∧
+    (match addTxIn (addTxOut fc03aCache (1, 0) ⟨50, [0x51]⟩ true 3) fc03aDb (1, 0) with
+      | some (c', _) => abs c' fc03aDb (1, 0)
+      | none => some fc03aEntry) = none := by
+  refine ⟨?_, by decide, by decide, by decide⟩
+  apply cinv_setSlot (cinv_empty _)
+  · intro ce hce hf; simp at hce; subst hce; simp at hf
+  · intro hn; simp at hn
+  · intro ce hce hm; simp at hce; subst hce; simp at hm
+
+/-! ### non-vacuity -/
+
+def exB1 : Block := ⟨1, ⟨1, [], [⟨50, [0x51]⟩, ⟨0, [0x6a]⟩]⟩, []⟩
+def exB2 : Block := ⟨2, ⟨2, [], [⟨50, [0x51]⟩]⟩, [⟨3, [(1, 0)], [⟨49, [0x52]⟩]⟩]⟩
+
+/-- A well-formed history exists: connect, flush, connect a spend, detach both, re-attach. -/
+example : HistOk [] [.connect exB1 true false, .flush .required false false,
+    .connect exB2 true true, .fetch (1, 0), .detach 2, .attach exB1 false] := by
+  decide
+
+/-! ### pins of regenerated constants -/
+
+theorem pin_flags : Generated.C03.tfCoinBase = 1 ∧ Generated.C03.tfSpent = 2 ∧
+    Generated.C03.tfModified = 4 ∧ Generated.C03.tfFresh = 8 := by decide
+
+theorem pin_script_limits : Generated.C03.maxScriptSize = (maxScriptSize : Int) ∧
+    Generated.C03.opReturn = (opReturn.toNat : Int) ∧ Generated.C03.opData75 = (opData75 : Int) ∧
+    Generated.C03.opPushData1 = (opPushData1 : Int) ∧ Generated.C03.opPushData2 = (opPushData2 : Int) ∧
+    Generated.C03.opPushData4 = (opPushData4 : Int) := by decide
+
+theorem pin_flush_modes : Generated.C03.flushRequired = 0 ∧ Generated.C03.flushPeriodic = 1 ∧
+    Generated.C03.flushIfNeeded = 2 := by decide
 
 end BV.C03
